@@ -122,6 +122,10 @@ def reference(nc, nums, salt, ctx, case):
 
 
 def check_case(ctx, case):
+    if case.get("kind") == "suite":
+        from .. import suite_workload
+
+        return suite_workload.run_for(ctx)
     k = case["kind"]
     nc = load.nc()
     if k == "text":
@@ -304,6 +308,11 @@ def _extreme(ctx, case, nc):
 
 
 def run(ctx):
+    from .. import suite_workload
+
+    os_ = __import__("os")
+    os_.makedirs(os_.path.join(__import__("vf.load").load.VERIF, ".work"), exist_ok=True)
+    suite_workload.run_for(ctx)
     for case in cases(ctx):
         if ctx.expired():
             ctx.count("stopped_by_time_budget")
